@@ -1184,12 +1184,16 @@ impl PacketReceiver for RtpTransport {
 
                 selected
             };
+            #[cfg(rustrtc_verif)]
+            crate::verif::sched("rtp.demux.selected");
 
             if let Some(tx) = listener {
                 match try_send_dropping(&tx, (rtp_packet, addr)) {
                     Ok(()) => {}
                     Err(mpsc::error::TrySendError::Full(_)) => {}
                     Err(mpsc::error::TrySendError::Closed(_)) => {
+                        #[cfg(rustrtc_verif)]
+                        crate::verif::sched("rtp.demux.closed");
                         let mut listeners = self.listeners.lock();
                         listeners.by_ssrc.remove(&ssrc);
                         listeners.remove_sender(&tx);
